@@ -20,9 +20,13 @@ func (c *FnCtx) frameCheck(st *State, key string, ref, lo, hi *Term, pos string)
 	var alts []*Term
 	alts = append(alts, c.isFresh(ref))
 	for _, a := range c.assigns {
+		g := f.True()
+		if a.cond != nil {
+			g = a.cond
+		}
 		if a.whole {
 			if strings.HasPrefix(key, "F|") || strings.HasPrefix(key, "M|") || strings.HasPrefix(key, "G|") {
-				alts = append(alts, f.And(f.Le(a.ref, ref), f.Lt(ref, a.hi)))
+				alts = append(alts, f.And(g, f.Le(a.ref, ref), f.Lt(ref, a.hi)))
 			}
 			continue
 		}
@@ -37,10 +41,10 @@ func (c *FnCtx) frameCheck(st *State, key string, ref, lo, hi *Term, pos string)
 			if h == nil {
 				h = f.Add(lo, f.Int(1))
 			}
-			alts = append(alts, f.And(f.Eq(ref, a.ref), f.Le(a.lo, lo), f.Le(h, a.hi)))
+			alts = append(alts, f.And(g, f.Eq(ref, a.ref), f.Le(a.lo, lo), f.Le(h, a.hi)))
 			continue
 		}
-		alts = append(alts, f.Eq(ref, a.ref))
+		alts = append(alts, f.And(g, f.Eq(ref, a.ref)))
 	}
 	c.oblige(st, "frame", f.Or(alts...), pos, "write target is fresh or listed in assigns ("+key+")")
 }
@@ -149,6 +153,13 @@ func (fr *frame) staticCall(x *ssa.Call, fn *ssa.Function, args []Value, binding
 	if len(fn.Blocks) > 0 && (IsRepoFn(fn) || fn.Parent() != nil) {
 		return c.inlineCall(fn, args, bindings, st)
 	}
+	// a method promoted from an embedded field: use the contract written against the outer type
+	if x != nil && len(x.Call.Args) > 0 && fn.Signature.Recv() != nil {
+		if ct, outer, ok := fr.promotedContract(x.Call.Args[0], fn, st); ok {
+			nargs := append([]Value{outer}, args[1:]...)
+			return c.byContract(ct, fn.Signature, nargs, st, pos)
+		}
+	}
 	if len(fn.Blocks) > 0 {
 		for _, pre := range c.e.Contracts.ExtInline {
 			if strings.HasPrefix(key, pre) {
@@ -159,6 +170,60 @@ func (fr *frame) staticCall(x *ssa.Call, fn *ssa.Function, args []Value, binding
 	}
 	c.unsupported("call of %s without contract at %s", key, pos)
 	return c.havocResults(st, fn.Signature.Results(), fn.Name())
+}
+
+// promotedContract walks up embedded-field selections of the receiver operand and looks for a contract
+// keyed by the outer type with the same method name.
+func (fr *frame) promotedContract(recv ssa.Value, fn *ssa.Function, st *State) (*Contract, Value, bool) {
+	c := fr.c
+	cur := recv
+	for depth := 0; depth < 4; depth++ {
+		var base ssa.Value
+		var viaPtr bool
+		switch v := cur.(type) {
+		case *ssa.Field:
+			base = v.X
+		case *ssa.FieldAddr:
+			base = v.X
+			viaPtr = true
+		case *ssa.UnOp:
+			if fa, ok := v.X.(*ssa.FieldAddr); ok && v.Op.String() == "*" {
+				base = fa.X
+				viaPtr = true
+			}
+		}
+		if base == nil {
+			return nil, nil, false
+		}
+		bt := base.Type()
+		if p, ok := bt.Underlying().(*types.Pointer); ok && viaPtr {
+			bt = p.Elem()
+		}
+		named, ok := bt.(*types.Named)
+		if !ok {
+			return nil, nil, false
+		}
+		tn := named.Obj().Pkg().Path() + "." + named.Obj().Name()
+		for _, key := range []string{"(" + tn + ")." + fn.Name(), "(*" + tn + ")." + fn.Name()} {
+			if ct := c.e.Contracts.ByKey[key]; ct != nil {
+				var outer Value
+				bv := fr.operand(base, st)
+				if viaPtr && !strings.HasPrefix(key, "(*") {
+					// contract takes the value: load the struct
+					if ref, ok := bv.(*Term); ok {
+						outer = c.loadStruct(st, c.structInfoOf(bt), ref)
+					}
+				} else {
+					outer = bv
+				}
+				if outer != nil {
+					return ct, outer, true
+				}
+			}
+		}
+		cur = base
+	}
+	return nil, nil, false
 }
 
 func (c *FnCtx) inlineCall(fn *ssa.Function, args []Value, bindings []Value, st *State) Value {
@@ -303,6 +368,9 @@ func (c *FnCtx) collectAssigns(ct *Contract, args []Value, st *State) []assignLo
 		return nil
 	}
 	saved := c.asgOut
+	savedCond := c.asgCond
+	c.asgCond = nil
+	defer func() { c.asgCond = savedCond }()
 	var out []assignLoc
 	c.asgOut = &out
 	tmp := st.clone()
@@ -310,6 +378,11 @@ func (c *FnCtx) collectAssigns(ct *Contract, args []Value, st *State) []assignLo
 	c.exec(fn, args[:len(ct.Params)], nil, tmp)
 	c.ghost--
 	c.asgOut = saved
+	if c.asgCond != nil {
+		for i := range out {
+			out[i].cond = c.asgCond
+		}
+	}
 	return out
 }
 
@@ -387,6 +460,31 @@ func (c *FnCtx) byContract(ct *Contract, sig *types.Signature, args []Value, st 
 
 func (c *FnCtx) havocLoc(st *State, l assignLoc, pos string) {
 	f := c.f
+	if l.cond != nil {
+		// conditional write: check the frame and havoc only under the condition
+		guard := st.clone()
+		c.assume(guard, l.cond)
+		if guard.R.op != "false" {
+			n := len(c.obls)
+			l2 := l
+			l2.cond = nil
+			tmp := guard.clone()
+			c.havocLoc(tmp, l2, pos)
+			_ = n
+			// merge: locations keep their value when the condition is false
+			for k, v := range tmp.heap {
+				old := c.heapGet(st, k, c.heapSort[k])
+				if old != v {
+					c.heapSet(st, k, f.Ite(l.cond, v, old), nil)
+				}
+			}
+			// assumptions made about the fresh values hold under the condition
+			if tmp.R != guard.R {
+				c.assume(st, f.Implies(l.cond, tmp.localP(f)))
+			}
+		}
+		return
+	}
 	switch {
 	case l.whole:
 		if l.si != nil {
@@ -610,7 +708,7 @@ func (fr *frame) vspecIntrinsic(x *ssa.Call, name string, fn *ssa.Function, args
 			c.assume(st, f.Forall([]*Term{i}, f.Implies(rng, lp)))
 		}
 		if name == "Forall" {
-			return f.Forall([]*Term{i}, f.Implies(rng, body)), true
+			return f.Forall([]*Term{i}, f.Implies(rng, body), indexPatterns(body, i)...), true
 		}
 		return f.Exists([]*Term{i}, f.And(rng, body)), true
 	case "Fresh":
@@ -621,6 +719,9 @@ func (fr *frame) vspecIntrinsic(x *ssa.Call, name string, fn *ssa.Function, args
 			}
 			if v.sort == SInt {
 				return c.isFreshRel(v), true
+			}
+			if v.sort == SIf {
+				return c.isFreshRel(f.IfVal(v)), true
 			}
 		}
 		c.unsupported("fresh() of unsupported value at %s", pos)
@@ -639,6 +740,11 @@ func (fr *frame) vspecIntrinsic(x *ssa.Call, name string, fn *ssa.Function, args
 		a, b := args[0].(*Term), args[1].(*Term)
 		return f.And(f.Eq(f.SlLen(a), f.SlLen(b)),
 			f.Or(f.Eq(f.SlLen(a), f.Int(0)), f.And(f.Eq(f.SlRef(a), f.SlRef(b)), f.Eq(f.SlOff(a), f.SlOff(b))))), true
+	case "AssignsWhen":
+		if c.asgOut != nil {
+			c.asgCond = args[0].(*Term)
+		}
+		return nil, true
 	case "AssignsAt":
 		if c.asgOut == nil {
 			return nil, true
@@ -807,4 +913,56 @@ func (c *FnCtx) initGhost(st *State, t types.Type, ref *Term) {
 		c.declareHeapKey("G|"+key, rs)
 		c.store(st, &LV{key: "G|" + key, ref: ref, typ: rt}, c.zeroOfSort(rs, rt))
 	}
+}
+
+// indexPatterns proposes E-matching patterns for a quantifier over index i: every application in the body
+// that has i as a direct argument of a sequence read, array read or specification function. Each is an
+// alternative single-term pattern.
+func indexPatterns(body, i *Term) [][]*Term {
+	var pats [][]*Term
+	seen := map[int]bool{}
+	var walk func(t *Term)
+	walk = func(t *Term) {
+		if seen[t.id] || !t.bound {
+			return
+		}
+		seen[t.id] = true
+		if t.op == "forall" || t.op == "exists" {
+			return
+		}
+		direct := false
+		for _, a := range t.args {
+			if a == i {
+				direct = true
+			}
+		}
+		if direct && (strings.HasPrefix(t.op, "at$") || strings.HasPrefix(t.op, "spec$") || t.op == "select") {
+			// the pattern may not contain other bound variables or interpreted arithmetic on i
+			ok := true
+			var chk func(x *Term)
+			chk = func(x *Term) {
+				if !x.bound {
+					return
+				}
+				if x.op == "var" && x != i {
+					ok = false
+				}
+				if x.op == "forall" || x.op == "exists" {
+					ok = false
+				}
+				for _, a := range x.args {
+					chk(a)
+				}
+			}
+			chk(t)
+			if ok && len(pats) < 6 {
+				pats = append(pats, []*Term{t})
+			}
+		}
+		for _, a := range t.args {
+			walk(a)
+		}
+	}
+	walk(body)
+	return pats
 }
